@@ -1,4 +1,6 @@
-"""C11 expanding / factoring / reducing intermediates (structural clauses)."""
+"""C11 expanding / factoring / reducing intermediates: every clause is decided by abstract evaluation (sa.symex) of the
+library functions on abstract terms, tensors and pools; the verdicts depend on what the functions compute, not on how the
+source spells it."""
 from __future__ import annotations
 
 import ast
@@ -6,34 +8,57 @@ import re
 from fractions import Fraction
 
 from ..symex import Symex, Obj, Func
-from ..terms import (T, sym, show, subterms, args_of, strip, expand_products, canon, is_num, t_mul, t_add, t_pow, calls)
-from ..model import AnalysisError, U, Defs, calls_in, call_name, walk_fn, kwarg, enclosing, enclosing_stmt, short
-from ..pathcond import conditions
-from . import common
+from ..terms import (T, sym, show, subterms, args_of, strip, expand_products, canon, is_num, t_mul, t_add, t_pow)
+from ..model import AnalysisError, U
 from . import c08, c13
-from .itmd_ir import registry, CANON_KEY, need_bra_ket_swap
 
 EXPLANATION = (
-    "R11a: expand_itmd substitution (targets zip(base_target, indices); every base contracted index "
-    "gets a fresh generic index of the same (space, spin), surplus raises; ordered; zero-guarded; "
-    "validate_indices demands equal length and position-wise equal space). R11b: term conservation "
-    "in t2_1.factor_itmd, _factor_short_intermediate (every path adds the possibly factored term "
-    "once), _factor_long_intermediate (unfactored terms added at the end; factored_terms.update "
-    "paired with adding the factored term; mixed-prefactor completion adds (pref - desired) * term), "
-    "factor_itmd's relevant/irrelevant split, prefactor formulas. R11c: the Zero placeholder is "
-    "resolved to 0 only for the tensor named 'Zero', which only re_residual classes build. R11d: all "
-    "definitions bind every referenced intermediate as X.expand_itmd if fully_expand else X.tensor "
-    "(residuals always .tensor). R11e: for every registered class the reader's name "
-    "(Obj.longname with default names, computed from the tensor _build_tensor constructs) equals the "
-    "class name. R11f: the index order read back from that tensor (lower+upper for amplitudes, "
-    "upper+lower otherwise) reproduces _default_idx and construction does not permute the defaults. "
-    "R11g: reduce_expr bookkeeping (R13g) and ordered substitutions at its sites. R11h: pool clean-up "
-    "of LongItmdVariants visits every entry. R11i: the sign that maps a match's remainder onto the stored remainder is applied to both "
-    "stored prefactors (prefactor and unit factorisation prefactor). R13d/R13h: expansion skeleton incl. fresh contracted indices per factor of a "
-    "power; fraction cancellation bookkeeping.")
+    "All clauses are decided by evaluating the library functions abstractly (sa.symex): arguments are abstract records and "
+    "symbolic terms, the expensive primitives (term comparison, index generation, sympy objects, the intermediates' "
+    "definitions) are modelled or left uninterpreted, and the evaluated results are compared with the expected behaviour. "
+    "R11a: RegisteredIntermediate.expand_itmd evaluated for definitions with/without contracted indices (also with spin): "
+    "the result is base.subs(ordered {target_k -> requested_k, contracted -> index generated for THIS call, same (space, "
+    "spin), pairwise different}) wrapped with the requested indices as targets; fully_expand reaches the definition; spin "
+    "indices, surplus generated indices and substitutions that annihilate a non-zero definition are refused on exactly those "
+    "paths; two consecutive expansions use disjoint contracted indices (functions behind caching decorators are evaluated "
+    "once per argument tuple); validate_indices as a decision table (accepted iff same length and position-wise same "
+    "space, order kept). R11b: value conservation of the factorisation. t2_1.factor_itmd on concrete terms (integral "
+    "exponents, bracket exponents, matching/non-matching brackets): integral, bracket and amplitude are exchanged equally "
+    "often, the rest of the term is kept, early exits as a decision table. _factor_short_intermediate on abstract terms with "
+    "scripted variants (one, same objects, disjoint objects, overlapping, none, two terms): on every path every term enters "
+    "the sum once, unchanged or as _build_factored_term(remainder, term.pref*factor/itmd.pref, cls, images of the default "
+    "indices) with all four read off ONE variant and off the sign-canonical split that was compared. "
+    "_factor_long_intermediate: every match filed in the pool has prefactor term.pref*f/(n*itmd.pref), unit prefactor "
+    "itmd.pref*f*n (f = variant factor * sign of the minimised tensor), remainder/indices of its own variant; the result is "
+    "the two factorisation passes plus every term they did not consume, once. _factor_complete / _factor_mixed_prefactors "
+    "on a pool model: one factored term per variant, used terms marked and removed before the next variant, mixed "
+    "prefactors completed by (pref - common*unit)*term once per deviating term. factor_itmd: candidates through the "
+    "short/long factorisation (definition prepared for the already factored intermediates, max_order//order repetitions), "
+    "the rest added back, nothing-to-do table. factor_intermediates: requested intermediates (max_order filter) factored in "
+    "sequence on the running expression, each told its predecessors. R11c: _build_factored_term over a table of tensor "
+    "names: 0 exactly for 'Zero', remainder*pref*tensor otherwise; only re_residual classes build 'Zero'. R11d: every "
+    "_build_expanded_itmd evaluated for both levels: referenced intermediates enter as X.expand_itmd (fully expanding) / "
+    "X.tensor (residuals always .tensor) and both levels are the same formula. R11e/R11f: every _build_tensor is evaluated, "
+    "the tensor is constructed through the evaluated constructors of sympy_objects (canonical sort, bra-ket swap), its "
+    ".idx and Obj.longname(use_default_names=True) are evaluated (default and renamed tensor_names): long name = class "
+    "name, read-back index order = _default_idx, construction keeps groups and sign, every index used once; registry "
+    "flattening, registration and the look-up in Obj.expand_intermediates are evaluated. R11h: remove_used_terms / "
+    "clean_empty on ~45 concrete pools x 5 used-term sets against their specification. R11i: LongItmdVariants.add on a "
+    "decision table of stored remainders, signs and duplicates: both stored prefactors carry the sign of the remainder "
+    "mapping. R13d/R13g/R13h/R08a/R19c (owned elsewhere): expansion skeleton, reduce_expr bookkeeping, fraction "
+    "cancellation, ordered substitutions, registry look-ups by default names.")
 ASSUMPTIONS = [
-    "the matching logic (_compare_terms, LongItmdVariants, factor_denom, cancel_orb_energy_frac) is a runtime "
-    "statement and not decided",
+    "the matching logic itself (_compare_terms, _compare_remainder, _map_on_other_terms, minimize_tensor_indices, the search in "
+    "LongItmdVariants.get_complete_variant/get_mixed_pref_variant, factor_denom) is a runtime statement and not decided; the "
+    "rules decide that whatever these return is used consistently and conservatively",
+    "the value-preserving nature of EriOrbenergy(term).canonicalize_sign(), .expand(), Expr(...) and term.cancel_*() is assumed "
+    "(they are treated as transparent wrappers / uninterpreted factors)",
+    "scenarios are bounded: at most two terms per expression in the short factorisation, four in the long one, pools of at most "
+    "three itmd-index keys; integral/bracket exponents up to 2 (3 for a non-matching bracket)",
+    "which candidate terms/variants are chosen (relevance filter of factor_itmd, prescans, minimal-overlap choice) is only "
+    "constrained as far as the value of the result depends on it; factor_itmd's split is compared with its documented filter",
+    "sympy primitives are modelled: sympify, Tuple, _sort_anticommuting_fermions (stable sort by the library's own key "
+    "function, which is evaluated), object creation by super().__new__; S.Zero/S.One/S.NegativeOne are pairwise distinct",
 ]
 
 IT = "intermediates:RegisteredIntermediate."
